@@ -12,6 +12,7 @@ import Verif.Drv.RuleSpec
 import Verif.Drv.Recognisers
 import Verif.Drv.MainLoop
 import Verif.Drv.CloseLoop
+import Verif.Drv.LeafStore
 
 /-- model name → request handler (one request line in, one answer line out). -/
 def models : List (String × (String → String)) :=
@@ -38,7 +39,10 @@ def models : List (String × (String → String)) :=
    ("linerules", Verif.Drv.RuleSpec.stepLine),
    ("recog", Verif.Drv.Recognisers.step),
    ("mainloop", Verif.Drv.MainLoop.step),
-   ("closeloop", Verif.Drv.CloseLoop.step)]
+   ("closeloop", Verif.Drv.CloseLoop.step),
+   ("leading", Verif.Drv.LeafStore.stepLeading),
+   ("leading-legal", Verif.Drv.LeafStore.stepLegal),
+   ("fields", Verif.Drv.LeafStore.stepFields)]
 
 partial def loop (h : IO.FS.Stream) (out : IO.FS.Stream) (f : String → String) : IO Unit := do
   let line ← h.getLine
